@@ -135,6 +135,9 @@ public:
      * equal, and < 0 otherwise.
      */
     int compare(NamedEntity &other) const {
+        if (other.isNone()) {
+            throw UninitializedEntity();
+        }
         return Entity<T>::backend()->compare(other.impl());
     }
 
